@@ -428,6 +428,10 @@ def gen_cases(seed: int, n: int):
         kind = "nr" if i % 3 == 0 else "rel"
         nch = rng.choice([1, 2, 2, 3, 3] if thorough else [1, 2, 2])
         npoles = rng.choice([1, 2, 3, 4] if thorough else [1, 2])
+        if not thorough and i == 1:
+            # the quick tier evaluates one three-channel relativistic matrix with unequal channel masses (the symbolic 3x3
+            # inverse costs ~30 s once; the n = 3 THEOREM and the non-relativistic n = 3 cases stay in the thorough tier)
+            kind, nch, npoles = "rel", 3, 1
         ma = [round(rng.uniform(0.1, 0.6), 6) for _ in range(nch)]
         mb = [round(rng.uniform(0.1, 0.6), 6) for _ in range(nch)]
         thr = max(a + b for a, b in zip(ma, mb))
